@@ -21,8 +21,25 @@ else makes that function 'untranslated' (the previous Source64.v is kept and
 the fact is recorded; not an alarm).
 
 coq/Source64Proofs.v proves, for each function f, that whenever the
-hand-written model f64 returns OK r the source-derived s64_f returns OK r."""
-import json, os, re, subprocess, sys
+hand-written model f64 returns OK r the source-derived s64_f returns OK r.
+
+Second part (tied in coq/Source64MoreProofs.v): the members of the class template
+civil_time<T>, the relational operator templates and next_weekday/prev_weekday.
+Templates are read through their INSTANTIATIONS: a fixed probe translation unit
+(PROBE_TU below, written to a temporary directory) uses every member for each of
+the six alignments and every relational operator for each of the 36 pairs; clang's
+AST of that unit (one dump, so that declaration ids are consistent) is indexed and
+each instantiated body is translated.  A civil_time<T> value is represented by its
+only data member f_ (checked: one field, of type fields, defaulted copy operations);
+a constructor becomes the function giving the constructed f_; a non-const member
+function takes the object as `self` and returns the new object (paired with the
+returned value when it returns by value); calls are resolved through the declaration
+id clang recorded (overload resolution is clang's); a zero-argument library function
+whose body is `return <integer constant expression>` (numeric_limits<long>::min) is
+read as that constant; `for (init;; inc)` loops that can only be left by `return`
+become Fixpoints returning the function result (separate loop fuel `lfuel`, the
+function's `fuel` being passed unchanged to callees)."""
+import json, os, re, shutil, subprocess, sys, tempfile
 
 sys.path.insert(0, os.path.dirname(__file__))
 from ast_translate import docs, WEEKDAYS, Untranslatable  # noqa: E402
@@ -40,6 +57,9 @@ CASTS = ("ImplicitCastExpr", "CXXStaticCastExpr", "CStyleCastExpr", "CXXFunction
 WIDTH = {"long": 64, "long long": 64, "int": 32, "short": 16, "signed char": 8, "char": 8, "bool": 1}
 ENUM_WIDTH = 32
 
+
+CIVIL_TAGS = ["second", "minute", "hour", "day", "month", "year"]
+SELF = "self"
 
 INFO_CC = "src/time_zone_info.cc"
 TARGETS2 = ["IsLeap", "ToPosixWeekday", "AllYearDST", "TransOffset"]      # src/time_zone_info.cc
@@ -174,6 +194,24 @@ def tag_of(t):
     return m.group(1) if m else None
 
 
+def is_tag_type(t):
+    """t: a type dictionary; is it one of the empty dispatch-tag structs (not a civil_time<..._tag>)"""
+    return re.fullmatch(r"(?:struct )?(?:cctz::detail::)?\w+_tag", tystr(t)) is not None
+
+
+def civil_tag(t):
+    """alignment tag of a civil_time value type (type dictionary), or None"""
+    for key in ("desugaredQualType", "qualType"):
+        m = re.search(r"civil_time<(?:cctz::detail::)?(\w+)_tag>", t.get(key) or "")
+        if m:
+            return m.group(1)
+    for key in ("desugaredQualType", "qualType"):
+        m = re.search(r"\bcivil_(second|minute|hour|day|month|year)\b", t.get(key) or "")
+        if m:
+            return m.group(1)
+    return None
+
+
 def strip(n):
     """through parentheses, casts and copy-constructions down to the value-producing node"""
     while True:
@@ -212,56 +250,203 @@ def zl(v):
 
 
 class Fn:
-    def __init__(self, ast, gname, known, path=HEADER):
+    def __init__(self, ast, gname, known, path=HEADER, ctx=None):
         self.ast, self.gname, self.known, self.path = ast, gname, known, path   # known: key -> (gallina name, needs fuel, returns fields, returns bool)
-        self.loops, self.tmp = [], 0
+        self.ctx = ctx or {}                                    # probe-unit context: known_ids, copy_assign, mutating, lib (see Probe)
+        self.loops, self.loop_done, self.tmp = [], [], 0
+        self.mutating, self.rtype = None, None                  # member functions: None (const / not a member), "self", "pair"
         self.struct_params = {}                                 # struct parameter -> sorted list of scalar member paths used
         self.gtables = {}                                       # global table name -> Gallina literal
         self.rec_vars = {}                                      # fields / civil parameters -> True
         self.bool_vars = set()
         self.tables = set()
         self.fuel = any(k.get("kind") in ("ForStmt", "WhileStmt") for k in walk(ast)) or any(
-            (self.callee(k) or (0, False))[1] for k in walk(ast) if k.get("kind") == "CallExpr")
+            (self.callee(k) or (0, False))[1] for k in walk(ast)
+            if k.get("kind") in ("CallExpr", "CXXOperatorCallExpr", "CXXMemberCallExpr", "CXXConstructExpr", "CXXTemporaryObjectExpr"))
 
     def fresh(self):
         self.tmp += 1
         return "t%d" % self.tmp
 
+    def vtype(self, v):
+        return "fields" if v in self.rec_vars else "list Z" if v in self.tables else "bool" if v in self.bool_vars else "Z"
+
     # ---------------------------------------------------------------- calls
-    def callee(self, call):
+    def ctor_key(self, n):
+        """which constructor a CXXConstructExpr of a civil_time<T> runs: 'copy', or the key of a translated constructor
+        (decided by the constructor signature clang selected), else None"""
+        if not is_civil(n) or is_fields(n):
+            return None
+        tag = civil_tag(n.get("type", {}))
+        sig = n.get("ctorType", {}).get("qualType", "")
+        args = [a for a in n.get("inner", []) if a.get("kind") != "CXXDefaultArgExpr"]
+        if tag is None:
+            return None
+        if "preserves_data" in sig:
+            src = civil_tag(args[0].get("type", {})) if len(args) == 1 else None
+            return None if src is None else "convert_%s_%s" % (src, tag)
+        if re.fullmatch(r"void \((?:const )?(?:cctz::detail::)?civil_time<(?:cctz::detail::)?%s_tag> &&?\)(?: noexcept)?" % tag, sig):
+            return "copy"
+        if re.fullmatch(r"void \((?:cctz::detail::)?fields\)(?: noexcept)?", sig):
+            return "ctor_" + tag
+        if len(args) == 6 and not any(is_civil(a) or is_fields(a) for a in args):
+            return "construct_" + tag
+        if not args and re.fullmatch(r"void \(\)(?: noexcept)?", sig):
+            return "default_" + tag
+        return None
+
+    def call_parts(self, call):
+        """(reference to the callee, object expression of a member call or None, argument expressions)"""
+        if call.get("kind") == "CXXMemberCallExpr":
+            me = call["inner"][0]
+            while me.get("kind") in ("ImplicitCastExpr", "ParenExpr"):
+                me = me["inner"][0]
+            return {"id": me.get("referencedMemberDecl"), "name": me.get("name")}, (me.get("inner") or [None])[0], call["inner"][1:]
         c = call["inner"][0]
         while c.get("kind") in ("ImplicitCastExpr", "ParenExpr"):
             c = c["inner"][0]
-        ref = c.get("referencedDecl", {})
+        return c.get("referencedDecl", {}), None, call["inner"][1:]
+
+    def callee_key(self, call):
+        if call.get("kind") in ("CXXConstructExpr", "CXXTemporaryObjectExpr"):
+            k = self.ctor_key(call)
+            return None if k == "copy" else k
+        ref = self.call_parts(call)[0]
+        key = self.ctx.get("known_ids", {}).get(ref.get("id"))
+        if key is not None:
+            return key
         name = ref.get("name")
         if name is None:
             return None
-        key = name
         if name in TAGGED:
-            key = "%s_%s" % (name, tag_of(ref.get("type", {}).get("qualType", "")))
-        return self.known.get(key)
+            return "%s_%s" % (name, tag_of(ref.get("type", {}).get("qualType", "")))
+        return name
+
+    def callee(self, call):
+        key = self.callee_key(call)
+        return None if key is None else self.known.get(key)
 
     def call(self, n, scope):
-        info = self.callee(n)
+        key = self.callee_key(n)
+        info = None if key is None else self.known.get(key)
         if info is None:
             raise Untranslatable("call of an untranslated function")
         gname, fuel, rf, rb = info
+        if n.get("kind") in ("CXXConstructExpr", "CXXTemporaryObjectExpr"):
+            obj, actual = None, [a for a in n.get("inner", []) if a.get("kind") != "CXXDefaultArgExpr"]
+        else:
+            _, obj, actual = self.call_parts(n)
         binds, args = [], []
-        for a in n["inner"][1:]:
-            t = a.get("type", {}).get("qualType", "")
-            if re.search(r"_tag\b", t):
+        mut = key in self.ctx.get("mutating", {})
+        if mut:
+            if self.ctx["mutating"][key] != "self":
+                raise Untranslatable("call of a member that returns a value and modifies its object")
+            if obj is None:
+                if not actual:
+                    raise Untranslatable("member operator without an object")
+                obj, actual = actual[0], actual[1:]
+            b, t, comp = self.rec_expr(obj, scope)
+            if b or comp or t != SELF:
+                raise Untranslatable("modifying member called on something other than *this")
+            args.append(SELF)
+        elif obj is not None:
+            raise Untranslatable("member call")
+        for a in actual:
+            if is_tag_type(a.get("type", {})):
                 continue
             if is_fields(a) or is_civil(a):
-                u = strip(a)
-                v = u.get("referencedDecl", {}).get("name")
-                if u.get("kind") == "DeclRefExpr" and v in self.rec_vars:
-                    args.append(v)
-                    continue
-                raise Untranslatable("record argument that is not a parameter")
+                b, t, comp = self.rec_expr(a, scope)
+                binds += b
+                if comp:
+                    x = self.fresh()
+                    binds.append("do %s <- %s ;;\n" % (x, t))
+                    self.rec_vars[x] = True
+                    t = x
+                args.append(t)
+                continue
             b, t_, kd = self.expr(a, scope)
             binds += b
             args.append(self.as_z(t_, kd))
-        return binds, "%s%s %s" % (gname, " fuel" if fuel else "", " ".join(args)), rf, rb
+        term = "%s%s%s" % (gname, " fuel" if fuel else "", "".join(" " + a for a in args))
+        if mut:
+            return binds + ["do %s <- %s ;;\n" % (SELF, term)], SELF, "self", rb
+        return binds, term, rf, rb
+
+    # ---------------------------------------------------------------- record-valued expressions: (binds, term, is_computation)
+    def rec_expr(self, n, scope):
+        """a fields / civil_time<T> expression: term names the value (is_computation False) or is a `res fields` term"""
+        k = n.get("kind")
+        inner = n.get("inner", [])
+        if k in TRANSPARENT:
+            return self.rec_expr(inner[-1], scope)
+        if k in CASTS:
+            if n.get("castKind") in ("NoOp", "LValueToRValue", "ConstructorConversion"):
+                return self.rec_expr(inner[-1], scope)
+            raise Untranslatable("cast kind " + str(n.get("castKind")))
+        if k == "DeclRefExpr":
+            v = n.get("referencedDecl", {}).get("name")
+            if v in self.rec_vars:
+                return [], v, False
+            raise Untranslatable("record value " + str(v))
+        if k == "CXXThisExpr" and SELF in self.rec_vars:
+            return [], SELF, False
+        if k == "UnaryOperator" and n.get("opcode") == "*" and strip(inner[0]).get("kind") == "CXXThisExpr" and SELF in self.rec_vars:
+            return [], SELF, False
+        if k == "MemberExpr" and n.get("name") == "f_" and (is_civil(inner[0]) or strip(inner[0]).get("kind") == "CXXThisExpr"):
+            return self.rec_expr(inner[0], scope)                       # a civil_time<T> is represented by its member f_
+        if k in ("CXXConstructExpr", "CXXTemporaryObjectExpr", "InitListExpr"):
+            args = [a for a in inner if a.get("kind") != "CXXDefaultArgExpr"]
+            if is_fields(n):
+                if len(args) == 1 and is_fields(args[0]):
+                    return self.rec_expr(args[0], scope)                # copy / move of a fields
+                if len(args) == 6:
+                    binds, vals = [], []
+                    for a in args:
+                        b, t, kd = self.expr(a, scope)
+                        binds += b
+                        vals.append(self.as_z(t, kd))
+                    return binds, "OK (mkF %s)" % " ".join(vals), True
+                raise Untranslatable("construction of a fields")
+            ck = self.ctor_key(n)
+            if ck == "copy" and len(args) == 1:
+                return self.rec_expr(args[0], scope)
+            if ck is not None and ck != "copy":
+                b, c, rf, rb = self.call(n, scope)
+                return b, c, True
+            raise Untranslatable("constructor " + n.get("ctorType", {}).get("qualType", "?"))
+        if k in ("CallExpr", "CXXOperatorCallExpr", "CXXMemberCallExpr"):
+            ref, obj, actual = self.call_parts(n)
+            if ref.get("id") is not None and ref.get("id") in self.ctx.get("copy_assign", ()):
+                tgt = actual[0] if obj is None else obj
+                src = actual[1] if obj is None else actual[0]
+                bt, tt, ct = self.rec_expr(tgt, scope)
+                if bt or ct or tt != SELF:
+                    raise Untranslatable("assignment to an object other than *this")
+                b, t, comp = self.rec_expr(src, scope)
+                return b + ["do %s <- %s ;;\n" % (SELF, t) if comp else "let %s := %s in\n" % (SELF, t)], SELF, False
+            b, c, rf, rb = self.call(n, scope)
+            if rf == "self":
+                return b, c, False
+            if not rf:
+                raise Untranslatable("call that does not return a record")
+            return b, c, True
+        if k == "ConditionalOperator":
+            bc, tc, kc = self.expr(inner[0], scope)
+            arms = []
+            for a in inner[1:3]:
+                b, t, comp = self.rec_expr(a, scope)
+                arms.append(self.comp(b, t, comp))
+            return bc, "(if %s then (\n%s\n) else (\n%s\n))" % (self.as_b(tc, kc), arms[0], arms[1]), True
+        raise Untranslatable("record expression of kind " + str(k))
+
+    @staticmethod
+    def comp(binds, term, is_comp):
+        """the `res fields` term performing binds and yielding term"""
+        if is_comp:
+            return "".join(binds) + term
+        if binds and binds[-1].startswith("do %s <- " % term) and binds[-1].endswith(" ;;\n"):
+            return "".join(binds[:-1]) + binds[-1][len("do %s <- " % term):-len(" ;;\n")]
+        return "".join(binds) + "OK %s" % term
 
     # ---------------------------------------------------------------- expressions: (binds, term, 'Z'|'bool')
     @staticmethod
@@ -333,7 +518,9 @@ class Fn:
                 v = strip(me["inner"][0]).get("referencedDecl", {}).get("name")
                 if v in self.rec_vars and me.get("name") in ACCESSORS:
                     return [], "(%s %s)" % (ACCESSORS[me["name"]], v), "Z"
-            raise Untranslatable("member call")
+            if self.callee(n) is None:
+                raise Untranslatable("member call")
+            k = "CallExpr"
         if k == "UnaryOperator":
             op = n["opcode"]
             if op in ("++", "--"):
@@ -430,7 +617,12 @@ class Fn:
             if len(terms) == 1:
                 return binds + ["do %s <- tbl_get %s %s ;;\n" % (x, tref, terms[0])], x, "Z"
             return binds + ["do %s <- tbl_get2 %s %s %s ;;\n" % (x, tref, terms[0], terms[1])], x, "Z"
-        if k == "CallExpr":
+        if k in ("CallExpr", "CXXOperatorCallExpr"):
+            if self.callee(n) is None and "lib_const" in self.ctx:
+                ref, obj, actual = self.call_parts(n)
+                v = self.ctx["lib_const"](ref.get("id")) if obj is None and not actual else None
+                if v is not None:
+                    return [], zl(v), "Z"
             b, c, rf, rb = self.call(n, scope)
             if rf:
                 raise Untranslatable("fields-valued call inside an expression")
@@ -516,7 +708,24 @@ class Fn:
             return self.always_escapes(self.body_list(last))
         if last.get("kind") == "IfStmt" and last.get("hasElse"):
             return self.always_escapes(self.body_list(last["inner"][1])) and self.always_escapes(self.body_list(last["inner"][2]))
+        if last.get("kind") == "ForStmt" and self.return_only_loop(last):
+            return True
         return False
+
+    def own_breaks(self, n):
+        """break statements that leave the loop whose body is n (not those of nested loops / switches)"""
+        if isinstance(n, dict):
+            if n.get("kind") == "BreakStmt":
+                yield n
+            if n.get("kind") in ("ForStmt", "WhileStmt", "DoStmt", "SwitchStmt", "CXXForRangeStmt"):
+                return
+            for c in n.get("inner", []):
+                yield from self.own_breaks(c)
+
+    def return_only_loop(self, st):
+        """a `for (init;; inc)` (no condition) with a loop header and no break of its own: left only by return"""
+        h = st["inner"]
+        return len(h) == 5 and (h[0] or h[3]) and not h[1] and not h[2] and not any(True for _ in self.own_breaks(h[4]))
 
     @staticmethod
     def tup(vs):
@@ -569,24 +778,16 @@ class Fn:
         raise Untranslatable("assignment operator " + str(op))
 
     def fields_result(self, n, scope):
-        """(binds, res-term) for a `fields` expression in return position"""
-        u = strip(n)
-        k = u.get("kind")
-        if k in ("CXXTemporaryObjectExpr", "CXXConstructExpr", "InitListExpr") and len(u.get("inner", [])) == 6:
-            binds, args = [], []
-            for a in u["inner"]:
-                b, t, kd = self.expr(a, scope)
-                binds += b
-                args.append(self.as_z(t, kd))
-            return binds, "OK (mkF %s)" % " ".join(args)
-        if k == "DeclRefExpr" and u.get("referencedDecl", {}).get("name") in self.rec_vars:
-            return [], "OK %s" % u["referencedDecl"]["name"]
-        if k == "CallExpr":
-            b, c, rf, rb = self.call(u, scope)
-            if not rf:
-                raise Untranslatable("call that does not return fields")
-            return b, c
-        raise Untranslatable("fields value of kind " + str(k))
+        """(binds, res-term) for a `fields` / civil_time<T> expression in return position"""
+        b, t, comp = self.rec_expr(n, scope)
+        if self.mutating == "pair":
+            if comp:
+                x = self.fresh()
+                b, t = b + ["do %s <- %s ;;\n" % (x, t)], x
+            return b, "OK (%s, %s)" % (t, SELF)
+        if self.mutating == "self" and (comp or t != SELF):
+            raise Untranslatable("member returning a reference to something other than *this")
+        return [], self.comp(b, t, comp)
 
     def seq(self, stmts, scope, tail, ret_fields):
         if not stmts:
@@ -594,6 +795,8 @@ class Fn:
                 return "OK %s" % self.tup(tail[1])
             if tail[0] == "loop":
                 return "%s fuel %s" % (tail[1], " ".join(tail[2] + tail[3]))
+            if tail[0] == "retloop":
+                return "%s fuel lfuel %s" % (tail[1], " ".join(tail[2] + tail[3]))
             raise Untranslatable("control reaches the end of a non-void function")
         st, rest = stmts[0], stmts[1:]
         k = st.get("kind")
@@ -618,8 +821,13 @@ class Fn:
                     out += "let %s := [%s] in\n" % (name, "; ".join(zl(v) for v in vals))
                     self.tables.add(name)
                     continue
-                if is_fields(vd):
-                    raise Untranslatable("local of type fields")
+                if is_fields(vd) or is_civil(vd):
+                    if "const" not in vd.get("type", {}).get("qualType", "") or "&" in vd.get("type", {}).get("qualType", ""):
+                        raise Untranslatable("record local that is not a const value")
+                    b, t, comp = self.rec_expr(init, sc)
+                    out += "".join(b) + ("do %s <- %s ;;\n" % (name, t) if comp else "let %s := %s in\n" % (name, t))
+                    self.rec_vars[name] = True
+                    continue
                 b, t, kd = self.expr(init, sc)
                 if tystr(vd.get("type", {})) == "bool":
                     self.bool_vars.add(name)
@@ -630,6 +838,11 @@ class Fn:
             return out + self.seq(rest, sc, tail, ret_fields)
         if k in ("CompoundAssignOperator", "BinaryOperator", "UnaryOperator"):
             return "".join(self.assign_stmt(st, scope)) + self.seq(rest, scope, tail, ret_fields)
+        if k in ("CXXOperatorCallExpr", "CXXMemberCallExpr", "ExprWithCleanups") and (is_civil(st) or is_fields(st)):
+            b, t, comp = self.rec_expr(st, scope)
+            if comp:
+                b = b + ["do _ <- %s ;;\n" % t]
+            return "".join(b) + self.seq(rest, scope, tail, ret_fields)
         if k == "ReturnStmt":
             if ret_fields:
                 b, r = self.fields_result(st["inner"][0], scope)
@@ -688,6 +901,36 @@ class Fn:
                 chain = "if %s =? %s then (\n%s\n) else (\n%s\n)" % (
                     sel, zl(val), self.seq(a2 if self.always_escapes(a2) else a2 + rest, scope, tail, ret_fields), chain)
             return "".join(cb) + chain
+        if k == "ForStmt" and self.return_only_loop(st):
+            # for (init;; inc) body, left only by `return`: a Fixpoint on its own fuel returning the function result;
+            # the statements after it are unreachable
+            init, inc, body = st["inner"][0], st["inner"][3], self.body_list(st["inner"][4])
+            if rest:
+                raise Untranslatable("statements after a loop that has no break")
+            if any(m.get("kind") == "ContinueStmt" for b_ in body for m in walk(b_)):
+                raise Untranslatable("continue in a loop with an increment")
+            if init:
+                if init.get("kind") != "DeclStmt":
+                    raise Untranslatable("for-init that is not a declaration")
+                return self.seq([init, {"kind": "\0loop", "st": st}], scope, tail, ret_fields)
+            raise Untranslatable("for loop with an increment but no declaration")
+        if k == "\0loop":
+            st = st["st"]
+            inc, body = st["inner"][3], self.body_list(st["inner"][4])
+            body = body + ([inc] if inc else [])
+            env = list(self.rec_vars) + list(scope) + sorted(self.tables)
+            stv = self.assigned(body, scope)
+            ro = [v for v in self.used(body, env) if v not in stv]
+            lname = "%s_loop%d" % (self.gname, len(self.loops) + 1)
+            self.loops.append(None)
+            idx = len(self.loops) - 1
+            saved_tables = set(self.tables)
+            btxt = self.seq(body, scope, ("retloop", lname, ro, stv), ret_fields)
+            self.tables = saved_tables
+            self.loops[idx] = (len(self.loop_done), "Fixpoint %s (fuel : nat) (lfuel : nat) %s {struct lfuel} : res %s :=\n  match lfuel with\n  | O => Err Fuel\n  | S lfuel =>\n%s\n  end.\n\n"
+                               % (lname, " ".join("(%s : %s)" % (v, self.vtype(v)) for v in ro + stv), self.rtype, btxt))
+            self.loop_done.append(idx)
+            return "%s fuel fuel %s" % (lname, " ".join(ro + stv))
         if k == "ForStmt":
             if any(h for h in st["inner"][:4]):
                 raise Untranslatable("for loop with a header")
@@ -700,22 +943,33 @@ class Fn:
             saved_tables = set(self.tables)
             btxt = self.seq(body, scope, ("loop", lname, ro, stv), ret_fields)
             self.tables = saved_tables
-            self.loops[idx] = ("Fixpoint %s (fuel : nat) %s {struct fuel} : res (%s) :=\n  match fuel with\n  | O => Err Fuel\n  | S fuel =>\n%s\n  end.\n\n"
+            self.loops[idx] = (len(self.loop_done), "Fixpoint %s (fuel : nat) %s {struct fuel} : res (%s) :=\n  match fuel with\n  | O => Err Fuel\n  | S fuel =>\n%s\n  end.\n\n"
                                % (lname, " ".join("(%s : Z)" % v for v in ro + stv), " * ".join(["Z"] * len(stv)), btxt))
+            self.loop_done.append(idx)
             return "do %s <- %s fuel %s ;;\n%s" % (self.pat(stv), lname, " ".join(ro + stv),
                                                     self.seq(rest, scope, tail, ret_fields))
         raise Untranslatable("statement " + str(k))
 
     def translate(self):
-        params, scope, body = [], [], None
+        params, scope, body, inits = [], [], None, []
+        kind = self.ast.get("kind")
+        member = kind in ("CXXMethodDecl", "CXXConstructorDecl")
+        ftype = self.ast.get("type", {}).get("qualType", "")
+        if kind == "CXXMethodDecl" and self.ast.get("storageClass") != "static":
+            self.rec_vars[SELF] = True
+            params.append("(%s : fields)" % SELF)
         for c in self.ast.get("inner", []):
             if c["kind"] == "ParmVarDecl":
                 t = c.get("type", {}).get("qualType", "")
-                if re.search(r"_tag\b", t):
+                if is_tag_type(c.get("type", {})):
                     continue
                 p = c.get("name")
                 if p is None:
+                    if member:
+                        continue                                      # an unnamed parameter cannot be read: operator++(int), preserves_data<>*
                     raise Untranslatable("unnamed parameter")
+                if p == SELF or p in ("fuel", "lfuel"):
+                    raise Untranslatable("parameter named " + p)
                 if is_fields(c) or is_civil(c):
                     self.rec_vars[p] = True
                     params.append("(%s : fields)" % p)
@@ -743,16 +997,322 @@ class Fn:
                     scope.append(p)
             elif c["kind"] == "CompoundStmt":
                 body = c
-        rt = self.ast.get("type", {}).get("qualType", "").split("(")[0].strip()
-        ret_fields = re.search(r"\bfields\b", rt) is not None
+            elif c["kind"] == "CXXCtorInitializer":
+                inits.append(c)
+        rt = ftype.split("(")[0].strip()
+        if rt == "auto" and "->" in ftype:
+            rt = ftype.split("->")[-1].strip()
+        ret_fields = re.search(r"\bfields\b", rt) is not None or (member or self.ctx != {}) and civil_tag({"qualType": rt}) is not None
         self.ret_bool = rt == "bool"
-        term = self.seq(self.body_list(body), scope, ("none",), ret_fields)
+        if kind == "CXXConstructorDecl":
+            # the function giving the member f_ of the constructed object
+            if len(inits) != 1 or len(inits[0].get("inner", [])) != 1 or self.body_list(body):
+                raise Untranslatable("constructor that is not one initialiser and an empty body")
+            ini = inits[0]
+            if not ("delegatingInit" in ini or ini.get("anyInit", {}).get("name") == "f_"):
+                raise Untranslatable("constructor initialiser")
+            ret_fields, self.rtype = True, "fields"
+            b, t, comp = self.rec_expr(ini["inner"][0], scope)
+            term = self.comp(b, t, comp)
+        else:
+            if kind == "CXXMethodDecl" and SELF in self.rec_vars and not re.search(r"\)\s*const\b", ftype):
+                if not ret_fields:
+                    raise Untranslatable("modifying member that does not return an object")
+                self.mutating = "self" if rt.endswith("&") else "pair"
+            self.rtype = "(fields * fields)" if self.mutating == "pair" else "fields" if ret_fields else ("bool" if self.ret_bool else "Z")
+            term = self.seq(self.body_list(body), scope, ("none",), ret_fields)
         term = "".join("let g_%s := %s in\n" % (g, v) for g, v in sorted(self.gtables.items())) + term
-        text = "".join(self.loops)
+        text = "".join(t for _, t in sorted(self.loops))
         text += "Definition %s %s%s : res %s :=\n%s.\n" % (
-            self.gname, "(fuel : nat) " if self.fuel else "", " ".join(params),
-            "fields" if ret_fields else ("bool" if self.ret_bool else "Z"), term)
+            self.gname, "(fuel : nat) " if self.fuel else "", " ".join(params), self.rtype, term)
         return text, ret_fields
+
+
+# ---------------------------------------------------------------------------------------------------------------
+# Second part: templates, through the instantiations of a probe translation unit
+
+PROBE_TU = r"""#include "cctz/civil_time_detail.h"
+namespace verif_probe {
+using namespace cctz::detail;
+template <typename A> void use_one(cctz::diff_t n) {
+  A a(1, 2, 3, 4, 5, 6);
+  A b;
+  a = a + n; a = n + a; a = a - n; n = a - b;
+  a += n; a -= n; ++a; a++; --a; a--;
+  a = (A::max)(); a = (A::min)();
+}
+template <typename A, typename B> void use_two() {
+  A a; B b;
+  bool r = a < b; r = a <= b; r = a >= b; r = a > b; r = a == b; r = a != b;
+  (void)r;
+  A c(b); (void)c;
+}
+template <typename A> void use_row() {
+  use_two<A, civil_second>(); use_two<A, civil_minute>(); use_two<A, civil_hour>();
+  use_two<A, civil_day>(); use_two<A, civil_month>(); use_two<A, civil_year>();
+}
+void all() {
+  use_one<civil_second>(0); use_one<civil_minute>(0); use_one<civil_hour>(0);
+  use_one<civil_day>(0); use_one<civil_month>(0); use_one<civil_year>(0);
+  use_row<civil_second>(); use_row<civil_minute>(); use_row<civil_hour>();
+  use_row<civil_day>(); use_row<civil_month>(); use_row<civil_year>();
+  civil_day d; d = next_weekday(d, weekday::monday); d = prev_weekday(d, weekday::monday);
+}
+}
+"""
+ROLE_ORDER = ["ctor", "default", "construct", "convert", "plus", "plus_rev", "minus", "diff", "add_assign", "sub_assign",
+              "pre_inc", "post_inc", "pre_dec", "post_dec", "max", "min"]
+RELATIONAL = [("operator<", "lt"), ("operator<=", "le"), ("operator>=", "ge"), ("operator>", "gt"), ("operator==", "eq"), ("operator!=", "ne")]
+WALKS = ["next_weekday", "prev_weekday"]
+
+
+def has_body(d):
+    return any(c.get("kind") == "CompoundStmt" for c in d.get("inner", []))
+
+
+def fold_lit(n):
+    """value of an integer constant expression made of literals, casts, unary - and + - *, or None"""
+    k = n.get("kind")
+    if k in TRANSPARENT or k in CASTS:
+        return fold_lit(n["inner"][-1])
+    if k == "IntegerLiteral":
+        return int(n["value"])
+    if k == "UnaryOperator" and n.get("opcode") == "-":
+        v = fold_lit(n["inner"][0])
+        return None if v is None else -v
+    if k == "BinaryOperator" and n.get("opcode") in ("+", "-", "*"):
+        a, b = fold_lit(n["inner"][0]), fold_lit(n["inner"][1])
+        if a is None or b is None:
+            return None
+        return {"+": a + b, "-": a - b, "*": a * b}[n["opcode"]]
+    return None
+
+
+class Probe:
+    """clang's AST of PROBE_TU (one dump: declaration ids are consistent), indexed"""
+
+    def __init__(self):
+        tmp = tempfile.mkdtemp(prefix="verif_probe_")
+        try:
+            src = os.path.join(tmp, "probe.cc")
+            open(src, "w").write(PROBE_TU)
+            r = subprocess.run(["clang++", "-std=c++11", "-fsyntax-only", "-I" + os.path.join(REPO, "include"),
+                                "-Xclang", "-ast-dump=json", src], stdout=subprocess.PIPE, stderr=subprocess.PIPE, text=True)
+        finally:
+            shutil.rmtree(tmp, ignore_errors=True)
+        if r.returncode != 0 or not r.stdout.strip():
+            raise Untranslatable("the probe unit does not compile: " + r.stderr.strip().split("\n")[0][:200])
+        self.tu = json.loads(r.stdout)
+        self.detail = []
+        for ns in self.tu.get("inner", []):
+            if ns.get("kind") == "NamespaceDecl" and ns.get("name") == "cctz":
+                self.detail += [d for d in ns.get("inner", []) if d.get("kind") == "NamespaceDecl" and d.get("name") == "detail"]
+        if not self.detail:
+            raise Untranslatable("namespace cctz::detail not found")
+        self.by_id = None
+        self._lib = {}
+
+    def top(self, kind, name):
+        return [d for ns in self.detail for d in ns.get("inner", []) if d.get("kind") == kind and d.get("name") == name]
+
+    def lib_const(self, did):
+        """value of a zero-argument function outside the translated set whose body is `return <constant>`, else None"""
+        if did is None:
+            return None
+        if self.by_id is None:
+            self.by_id = {}
+            for d in walk(self.tu):
+                if d.get("kind") in ("CXXMethodDecl", "FunctionDecl") and has_body(d):
+                    self.by_id[d.get("id")] = d
+        if did not in self._lib:
+            v, d = None, self.by_id.get(did)
+            if d is not None and not any(c.get("kind") == "ParmVarDecl" for c in d.get("inner", [])):
+                body = [c for c in d["inner"] if c.get("kind") == "CompoundStmt"][0].get("inner", [])
+                if len(body) == 1 and body[0].get("kind") == "ReturnStmt" and body[0].get("inner"):
+                    v = fold_lit(body[0]["inner"][0])
+            self._lib[did] = v
+        return self._lib[did]
+
+    # ---- the class template civil_time<T>
+    def specializations(self):
+        out = {}
+        for ct in self.top("ClassTemplateDecl", "civil_time"):
+            for sp in ct.get("inner", []):
+                if sp.get("kind") == "ClassTemplateSpecializationDecl" and sp.get("inner"):
+                    targs = [c for c in sp["inner"] if c.get("kind") == "TemplateArgument"]
+                    tag = tag_of(targs[0].get("type", {}).get("qualType", "")) if len(targs) == 1 else None
+                    if tag in CIVIL_TAGS and tag not in out and any(c.get("kind") == "FieldDecl" for c in sp["inner"]):
+                        out[tag] = sp
+        return out
+
+    @staticmethod
+    def check_representation(sp):
+        """civil_time<T> = its member f_: one field, of type fields; copy construction / assignment defaulted.
+        Returns the ids of the copy-assignment operators."""
+        flds = [c for c in sp["inner"] if c.get("kind") == "FieldDecl"]
+        if len(flds) != 1 or flds[0].get("name") != "f_" or not is_fields(flds[0]):
+            raise Untranslatable("civil_time is not exactly one member f_ of type fields")
+        if any(c.get("kind") == "CXXRecordDecl" and not c.get("isImplicit") for c in sp["inner"]) or \
+                any(b for b in sp.get("bases", [])):
+            raise Untranslatable("civil_time has bases or nested classes")
+        ids = []
+        for c in sp["inner"]:
+            sig = c.get("type", {}).get("qualType", "")
+            if c.get("kind") == "CXXConstructorDecl" and re.search(r"^void \((const )?[\w:]*civil_time<[\w:]+> &&?\)", sig):
+                if c.get("explicitlyDefaulted") != "default" and not c.get("isImplicit"):
+                    raise Untranslatable("user-written copy constructor")
+            if c.get("kind") == "CXXMethodDecl" and c.get("name") == "operator=":
+                if c.get("explicitlyDefaulted") != "default" and not c.get("isImplicit"):
+                    raise Untranslatable("user-written assignment operator")
+                ids.append(c.get("id"))
+            if c.get("kind") == "CXXDestructorDecl" and not c.get("isImplicit") and c.get("explicitlyDefaulted") != "default":
+                raise Untranslatable("user-written destructor")
+        return ids
+
+    @staticmethod
+    def check_accessors(sp):
+        """year() .. second() return f_.y .. f_.ss (the translator reads the accessors as the fields)"""
+        seen = set()
+        for c in sp["inner"]:
+            if c.get("kind") == "CXXMethodDecl" and c.get("name") in ACCESSORS:
+                body = [x for x in c.get("inner", []) if x.get("kind") == "CompoundStmt"]
+                ok = False
+                if body and len(body[0].get("inner", [])) == 1 and body[0]["inner"][0].get("kind") == "ReturnStmt":
+                    e = strip(body[0]["inner"][0]["inner"][0])
+                    if e.get("kind") == "MemberExpr" and FIELDS.get(e.get("name")) == ACCESSORS[c["name"]]:
+                        o = strip(e["inner"][0])
+                        ok = o.get("kind") == "MemberExpr" and o.get("name") == "f_" and strip(o["inner"][0]).get("kind") == "CXXThisExpr"
+                if not ok:
+                    raise Untranslatable("accessor %s() is not `return f_.<field>`" % c["name"])
+                seen.add(c["name"])
+        if seen != set(ACCESSORS):
+            raise Untranslatable("accessors missing")
+
+    @staticmethod
+    def members(sp, tag):
+        """[(role, key, declaration)] of the instantiated members of civil_time<tag>"""
+        out = []
+
+        def nparams(d):
+            return [c for c in d.get("inner", []) if c.get("kind") == "ParmVarDecl"]
+        for c in sp["inner"]:
+            k, nm = c.get("kind"), c.get("name")
+            if k == "CXXConstructorDecl" and has_body(c):
+                ps = nparams(c)
+                if c.get("explicitlyDefaulted") or c.get("isImplicit"):
+                    continue
+                if len(ps) == 6:
+                    out.append(("construct", "construct_" + tag, c))
+                elif len(ps) == 0:
+                    out.append(("default", "default_" + tag, c))
+                elif len(ps) == 1 and is_fields(ps[0]):
+                    out.append(("ctor", "ctor_" + tag, c))
+                else:
+                    out.append(("?", "constructor %s" % c.get("type", {}).get("qualType"), c))
+            elif k == "FunctionTemplateDecl" and nm == "civil_time":
+                for i in c.get("inner", []):
+                    if i.get("kind") == "CXXConstructorDecl" and has_body(i) and any(x.get("kind") == "TemplateArgument" for x in i["inner"]):
+                        ps = nparams(i)
+                        src = civil_tag(ps[0].get("type", {})) if ps else None
+                        if src in CIVIL_TAGS and src != tag:
+                            out.append(("convert", "convert_%s_%s" % (src, tag), i))
+                        else:
+                            out.append(("?", "constructor template instance %s" % i.get("type", {}).get("qualType"), i))
+            elif k == "CXXMethodDecl" and has_body(c) and not c.get("explicitlyDefaulted") and nm not in ACCESSORS:
+                ps = nparams(c)
+                role = {("operator+=", 1): "add_assign", ("operator-=", 1): "sub_assign", ("operator++", 0): "pre_inc",
+                        ("operator++", 1): "post_inc", ("operator--", 0): "pre_dec", ("operator--", 1): "post_dec",
+                        ("max", 0): "max", ("min", 0): "min"}.get((nm, len(ps)))
+                out.append((role, "%s_%s" % (role, tag), c) if role else ("?", "member %s" % nm, c))
+            elif k == "FriendDecl":
+                for f in c.get("inner", []):
+                    if f.get("kind") == "FunctionDecl" and has_body(f):
+                        ps = nparams(f)
+                        shape = tuple("c" if is_civil(q) else "z" for q in ps)
+                        role = {("operator+", ("c", "z")): "plus", ("operator+", ("z", "c")): "plus_rev",
+                                ("operator-", ("c", "z")): "minus", ("operator-", ("c", "c")): "diff"}.get((f.get("name"), shape))
+                        out.append((role, "%s_%s" % (role, tag), f) if role else ("?", "friend %s" % f.get("name"), f))
+        out.sort(key=lambda x: (ROLE_ORDER.index(x[0]) if x[0] in ROLE_ORDER else len(ROLE_ORDER),
+                                CIVIL_TAGS.index(tag_of(x[1].split("_")[1] + "_tag")) if x[0] == "convert" else 0))
+        return out
+
+
+def probe_section(known, done, failed, lines):
+    try:
+        pr = Probe()
+        specs = pr.specializations()
+        missing = [t for t in CIVIL_TAGS if t not in specs]
+        if missing:
+            raise Untranslatable("no instantiation of civil_time<%s_tag>" % missing[0])
+        ctx = {"known_ids": {}, "copy_assign": set(), "mutating": {}, "lib_const": pr.lib_const}
+        plan = []
+        for tag in CIVIL_TAGS:
+            ctx["copy_assign"].update(pr.check_representation(specs[tag]))
+            pr.check_accessors(specs[tag])
+            for role, key, d in pr.members(specs[tag], tag):
+                if role == "?":
+                    failed[key] = "member outside the translated set"
+                    continue
+                ctx["known_ids"][d.get("id")] = key
+                plan.append((key, d))
+    except (Untranslatable, ValueError, OSError) as e:
+        failed["civil_time"] = str(e) or type(e).__name__
+        return
+    lines.append("(* ---- civil_time<T> members (instantiations for the six alignments), relational operators,\n"
+                 "   next_weekday / prev_weekday: read from clang's AST of the probe unit in gen/ast_translate64.py.\n"
+                 "   A civil_time<T> is its member f_; a constructor is the function giving f_; a modifying member takes\n"
+                 "   the object as self and returns the new object (with the returned value first when it returns by value). ---- *)\n")
+    for key, d in plan:
+        try:
+            f = Fn(d, "s64_" + key, known, HEADER, ctx)
+            text, rf = f.translate()
+            lines.append(text)
+            known[key] = ("s64_" + key, f.fuel, rf, f.ret_bool)
+            if f.mutating:
+                ctx["mutating"][key] = f.mutating
+            done.append(key)
+        except Untranslatable as e:
+            failed[key] = str(e)
+            lines.append("(* %s: not translated: %s *)\n" % (key, e))
+    # relational operator templates: every instantiation is translated; they must all read the same
+    rel = []
+    for name, key in RELATIONAL:
+        insts = [i for t in pr.top("FunctionTemplateDecl", name) for i in t.get("inner", [])
+                 if i.get("kind") == "FunctionDecl" and has_body(i) and any(x.get("kind") == "TemplateArgument" for x in i["inner"])]
+        for i in insts:
+            ctx["known_ids"][i.get("id")] = key
+        rel.append((name, key, insts))
+    for name, key, insts in rel:
+        try:
+            if not insts:
+                raise Untranslatable("no instantiation of " + name)
+            texts = {}
+            for i in insts:
+                f = Fn(i, "s64_" + key, known, HEADER, ctx)
+                text, rf = f.translate()
+                texts.setdefault(text, []).append(i)
+                info = ("s64_" + key, f.fuel, rf, f.ret_bool)
+            if len(texts) != 1:
+                raise Untranslatable("the instantiations of %s do not all read the same" % name)
+            lines.append("(* %s: %d instantiations, one reading *)\n%s" % (name, len(insts), list(texts)[0]))
+            known[key] = info
+            done.append(key)
+        except Untranslatable as e:
+            failed[key] = str(e)
+            lines.append("(* %s: not translated: %s *)\n" % (key, e))
+    for fn in WALKS:
+        try:
+            ds = [d for d in pr.top("FunctionDecl", fn) if has_body(d)]
+            if len(ds) != 1:
+                raise Untranslatable("no single definition of " + fn)
+            f = Fn(ds[0], "s64_" + fn, known, HEADER, ctx)
+            text, rf = f.translate()
+            lines.append(text)
+            known[fn] = ("s64_" + fn, f.fuel, rf, f.ret_bool)
+            done.append(fn)
+        except Untranslatable as e:
+            failed[fn] = str(e)
+            lines.append("(* %s: not translated: %s *)\n" % (fn, e))
 
 
 def main():
@@ -795,6 +1355,7 @@ def main():
             except Untranslatable as e:
                 failed[key] = str(e)
                 lines.append("(* %s: not translated: %s *)\n" % (key, e))
+    probe_section(known, done, failed, lines)
     text = "\n".join(lines) + "\n"
     if failed:
         print(json.dumps({"written": False, "translated": done, "untranslated": failed, "kept_previous": True}))
